@@ -79,6 +79,7 @@ func c17Run(cfgIdx int, hist []int) *mc.SeqOut {
 	}
 	m := newMvcc()
 	lastChange := map[string]int64{} // virtual time of the newest change of each key
+	updated := map[string]bool{} // keys that were successfully updated at least once
 	nowNs := func() int64 { return vrt.NowNanos() }
 	gone := map[string]bool{}
 	// check compares every key with the model, allowing an event whose newest change is older than the TTL to be wholly gone
@@ -167,6 +168,11 @@ func c17Run(cfgIdx int, hist []int) *mc.SeqOut {
 				sig := "write-outcome"
 				if isEventKey(key) {
 					sig += "|event"
+					// the recorded finding (an update of an Event is written without TTL) needs an earlier
+					// successful update of this very key; any other wrong outcome on an Event is a different matter
+					if updated[key] {
+						sig += "|after-an-update-of-it"
+					}
 				}
 				fail(sig, "%s: succeeded=%v err=%v, the model says %v (versions %v)", c17OpName(a), op.OK, op.Err, want, m.keys[key])
 				return out
@@ -174,6 +180,9 @@ func c17Run(cfgIdx int, hist []int) *mc.SeqOut {
 			if op.OK {
 				m.apply(kind, key, op.Val, op.Hdr)
 				lastChange[key] = nowNs()
+				if kind == rUpdOK {
+					updated[key] = true
+				}
 			}
 		case a == c17NW:
 			if _, err := w.b.Compact(bg, 0); err != nil {
